@@ -9,7 +9,7 @@ git -C /repo worktree add -q --detach "$WT" HEAD || exit 2
 trap 'git -C /repo worktree remove --force "$WT" >/dev/null 2>&1; rm -rf "$WT"' EXIT
 DEMO=$(python3 -c "import json;print(json.load(open('$D/meta.json'))['demo_file'])")
 CMD=$(python3 -c "import json;print(json.load(open('$D/meta.json'))['demo_cmd'])")
-SRC=$(ls "$D"/*_test.go "$D"/*.go 2>/dev/null | head -1)
+SRC=$(ls "$D" | grep -v -e "^patch.diff$" -e "^meta.json$" | head -1); SRC="$D/$SRC"
 cd "$WT"
 git apply "$D/patch.diff" || { echo "RESULT apply-failed"; exit 1; }
 go build ./... || { echo "RESULT build-failed"; exit 1; }
